@@ -314,7 +314,7 @@ func runC06(c *Check, a *Analysis) {
 				}
 				okDel := false
 				for _, d := range pendingOps(p, "delete") {
-					if d.Fn != fn {
+					if !p.sameFn(d.Fn, fn) {
 						continue
 					}
 					if _, _, r := p.reachFromBlock(fn, fail, func(x ssa.Instruction) bool { return x == d.Instr }, nil, nil); r && comp.identityGuarded(ls, d, m.Val, lookups) && p.originsSubset(d.Key, m.Key) {
@@ -328,7 +328,7 @@ func runC06(c *Check, a *Analysis) {
 				c.Ob("R-NO-RESIDUE", sc.key(fn, "write error: unregister pending"), p.InstrPos(iff), okDel, det)
 				okS := false
 				for _, d := range p.mapOps("Conn", "streams") {
-					if d.Kind == "delete" && d.Fn == fn {
+					if d.Kind == "delete" && p.sameFn(d.Fn, fn) {
 						if _, _, r := p.reachFromBlock(fn, fail, func(x ssa.Instruction) bool { return x == d.Instr }, nil, nil); r {
 							if g, _ := p.guardedBy(d.Instr, matchFieldEqConst("upgrade", "Stream", 1)); g {
 								okS = true
